@@ -21,7 +21,8 @@ RULE = ("grids of 1-4 parameters x 1-4 values (scalars, strings, lists, tuples, 
         "[]}, or an invalid value, processes 1..16 on a simulated pool with seeded durations and tie-breaks; for ~12% of "
         "scenarios a failing execution is injected at EVERY batch position in turn (constructor or system); non-trivial "
         "= >=2 simulated workers with a completion order different from submission order, or an injected failure; "
-        "distinct = (grid shape, repetitions, processes, collector form, completion permutation, failure plan)")
+        "distinct = (grid shape, repetitions, processes, collector form, completion permutation, failure plan)"
+        "; also: a second batch in the same process, reused / pre-built / sibling-edited ParameterLists, one-shot collector iterables, models with their own `timestep` attribute, failure classes incl. StopIteration, KeyError ... and the package's own exceptions (exceptions cross the pickle boundary too); rare switch for known finding F11")
 COMPONENTS = {"real": ["ECAgent.Batching.batch_run", "_run_model_for_batch", "_build_model_from_kwargs", "ParameterList",
                        "ECAgent.Core.Model / SystemManager", "ECAgent.Collectors.Collector",
                        "multiprocessing.Pool (real-pool arm only, schedule not controlled)"],
